@@ -133,8 +133,9 @@ def _split(obs, trace, budget):
 
 def _replay_parallel(replay, obs, wd, nproc):
     """doc-attr-replay over `nproc` contiguous chunks of the REPLAY file, outputs concatenated in order"""
+    import docs
     if nproc <= 1:
-        C.run_harness(["doc-attr-replay", "--in", replay, "--out", obs])
+        docs.replay_cases(replay, obs, cmd=["doc-attr-replay", "--in", replay])
         return
     n = C.count_lines(replay)
     per = (n + nproc - 1) // nproc
@@ -150,7 +151,8 @@ def _replay_parallel(replay, obs, wd, nproc):
                     g.write(line)
             parts.append((pin, os.path.join(wd, "part%d.obs" % k)))
     with concurrent.futures.ThreadPoolExecutor(max_workers=nproc) as ex:
-        futs = [ex.submit(C.run_harness, ["doc-attr-replay", "--in", pin, "--out", pout]) for pin, pout in parts]
+        # under the harness watchdog: a crash or hang of the code under test becomes a judged event
+        futs = [ex.submit(docs.replay_cases, pin, pout, ["doc-attr-replay", "--in", pin]) for pin, pout in parts]
         for fu in futs:
             fu.result()
     with open(obs, "w") as g:
@@ -219,7 +221,8 @@ def run(prop, tier):
         # 3. impl -> spec: seeded random documents
         rnd = os.path.join(wd, "attr.rnd")
         nrnd = 1200 if tier == "quick" else 30000
-        C.run_harness(["doc-attr-record", "--seed", str(C.seed()), "--count", str(nrnd), "--out", rnd])
+        import docs
+        docs.replay_cases(None, rnd, cmd=["doc-attr-record", "--seed", str(C.seed()), "--count", str(nrnd)])
         # 4. one judge: Trace_Attr.tla
         trace = os.path.join(wd, "attr.trace")
         open(trace, "w").close()
